@@ -236,8 +236,9 @@ def guarded(prop, acc, case, fn, *args, **kw):
 
 class loud(object):
     """
-    Run a block with the library's event printing switched ON (its default), output discarded. The harness normally
-    silences it; code that only runs when events are printed must be exercised too.
+    Run a block with the library's event printing switched ON (its default), output discarded, and with logging
+    enabled down to DEBUG. The harness normally silences both (logging disabled altogether); code that only runs when
+    events are printed or records are emitted must be exercised too.
     """
 
     def __init__(self, on=True):
@@ -250,6 +251,13 @@ class loud(object):
             self._null = open(os.devnull, 'w')
             sys.stdout = self._null
             settings.set_print_events(True)
+            # ... and with the application's logging switched on down to DEBUG (records go to a null handler)
+            root = logging.getLogger()
+            self._lvl = root.level
+            if not any(isinstance(h, logging.NullHandler) for h in root.handlers):
+                root.addHandler(logging.NullHandler())
+            root.setLevel(logging.DEBUG)
+            logging.disable(logging.NOTSET)
         return self
 
     def __exit__(self, *exc):
@@ -258,6 +266,8 @@ class loud(object):
             settings.set_print_events(False)
             sys.stdout = self._out
             self._null.close()
+            logging.getLogger().setLevel(self._lvl)
+            logging.disable(logging.CRITICAL)
         return False
 
 
